@@ -33,6 +33,7 @@ type mockPeer struct {
 	polls    int // IsRunning budget: <0 unlimited, otherwise the number of further "true" answers
 	outbound bool
 	quit     chan struct{}
+	onSend   func(ch byte, b []byte) // optional observer of what the node sends to the peer
 }
 
 // ids are 40 hex characters (20 bytes), the format p2p.ID validation expects
@@ -93,6 +94,9 @@ func (p *mockPeer) NodeInfo() p2p.NodeInfo {
 func (p *mockPeer) Status() conn.ConnectionStatus { return conn.ConnectionStatus{} }
 func (p *mockPeer) SocketAddr() *p2p.NetAddress   { return p.addr }
 func (p *mockPeer) Send(ch byte, b []byte) bool {
+	if p.onSend != nil {
+		p.onSend(ch, b)
+	}
 	p.mu.Lock()
 	defer p.mu.Unlock()
 	if len(p.sent) < 64 {
